@@ -261,6 +261,12 @@ package common
 //@   modifies nothing
 //@   ensures [decoded] err == nil ==> result0 != nil && fresh(result0) && DecodedTx(&result0.SignedTransaction)
 //@   ensures [size] err == nil ==> len(val) <= config.TransactionMaximumSize
+//@   -- added for C23 (storage cache), ASSUMED: the decoded object remembers the byte string it was decoded from. TxSrc(ver) is a function of the
+//@   -- pointer (a fact about the allocation, like SnapSrc); TxHashOfVal(v) is the payload hash of the transaction encoded by the value with id v.
+//@   assumes [source] err == nil ==> TxSrc(result0) == kvval(val)
+
+//@ uninterp TxSrc(ver *VersionedTransaction) mathint
+//@ uninterp TxHashOfVal(v mathint) crypto.Hash
 
 //@ -- (c) the hashed bytes are EncodeTransaction of a FRESH SignedTransaction that copies ver.Transaction and has no authorisation data.
 //@ func (ver *VersionedTransaction) payloadMarshal
@@ -282,6 +288,9 @@ package common
 //@   -- C31's size abstraction: MLenOf(ver) names len(ver.Marshal()); with config.Debug == true (a constant of this tree) Marshal
 //@   -- re-decodes its output and panics when it exceeds config.TransactionMaximumSize. Assumed, not verified against the body.
 //@   assumes len(result) == MLenOf(ver) && 0 < len(result) && len(result) <= config.TransactionMaximumSize && fresh(result)
+//@   -- added for C23, ASSUMED: the encoding determines the payload hash, and a cached hash (ver.hash, set by PayloadHash) is the payload hash of
+//@   -- the current payload -- the cache is never invalidated, so this presumes the payload was not mutated after the first PayloadHash() (C06 note).
+//@   assumes [payload-hash] ver.hash.HasValue() ==> TxHashOfVal(kvval(result)) == ver.hash
 
 //@ func (ver *VersionedTransaction) PayloadMarshal
 //@   property C06
@@ -294,6 +303,9 @@ package common
 
 //@ func (ver *VersionedTransaction) PayloadHash
 //@   property C06
+//@   -- C28's abstraction: the payload hash is a fixed attribute TxHash(ver) of the transaction object while a snapshot is validated
+//@   -- (no function under contract there writes a payload field). Assumed, not verified against the body. TxHash: zz_contracts_c28_verif.go
+//@   assumes result == TxHash(ver)
 //@   requires ver != nil && TxPayloadOK(&ver.SignedTransaction.Transaction)
 //@   maypanic
 //@   modifies ver.pmbytes, ver.hash
@@ -301,4 +313,9 @@ package common
 //@   -- C02: "the payload hash of the transaction ver points to" as a function of the object (PayloadHashOf, zz_contracts_c02_verif.go): every call returns
 //@   -- the same value because the payload fields are never written after decoding (the cache ver.hash exists for exactly that reason). ASSUMED.
 //@   assumes [c02-payload-hash] result == PayloadHashOf(ver)
+//@   -- added for C23, ASSUMED: a Blake3 digest is never the all-zero string (the code itself uses the zero hash as "not cached yet")
+//@   assumes [nonzero] result.HasValue()
 //@   ensures [auth-untouched] ver.SignaturesMap == old(ver.SignaturesMap) && ver.AggregatedSignature == old(ver.AggregatedSignature)
+//@   -- C15/C17: the digest is never the all-zero hash (probability 2^-256 for Blake3): with [cached] this makes repeated calls on an
+//@   -- object return the same value. ASSUMED (cryptographic), not verified against the body.
+//@   assumes [nonzero] result.HasValue()
